@@ -13,7 +13,8 @@ import Percival.Gen.CpuPaths
 * §3 the dispatch in `CRC32C_Update` (`alg/crc32c.c`): `len >= 8 && hwaccel == HW_X86_CRC32`;
 * §4 `__m128i` as four 32-bit lanes / sixteen bytes and the SSE2 intrinsics used by
   `sha256_sse2.c`; `mm_bswap_epi32`, `s0_128`, `s1_128_low/high` (the `srli_epi64`-on-lane-pairs
-  trick), `SPAN_ONE_THREE`, `MSG4`, and the message schedule of `SHA256_Transform_sse2`.
+  trick), `SPAN_ONE_THREE`, `MSG4`, and the message schedule of `SHA256_Transform_sse2`;
+* §5 `SHA256RNDS2`, `SHA256MSG1`, `SHA256MSG2` and `SHA256_Transform_shani` (`sha256_shani.c`).
 
 A read outside the buffer, a failed `assert` of the C code, or an argument outside the C
 function's contract is the explicit outcome `none`.  CPU-feature *detection* (`cpuid`) and the
@@ -370,6 +371,167 @@ def absorbSse2 : Sha256.Regs → List Bytes → Option Sha256.Regs
   | s, b :: rest =>
     match transformSse2 s b with
     | some s' => absorbSse2 s' rest
+    | none => none
+
+/-! ## 5. SHA-NI: `sha256_shani.c`
+
+Intel SDM vol. 2B, `SHA256RNDS2`, `SHA256MSG1`, `SHA256MSG2` (the SDM's `Ch`, `Maj`, `Σ₀`, `Σ₁`, `σ₀`,
+`σ₁` are FIPS 180-4's, i.e. `Spec.Sha256`'s), `PSHUFB`, `PALIGNR`, `PUNPCKHQDQ/LQDQ`. -/
+
+/-- one iteration of the `FOR` loop in the SDM's `SHA256RNDS2` pseudo-code, on `(A, …, H)` with `WK_i` -/
+def sdmRound (r : Sha256.Regs) (wk : UInt32) : Sha256.Regs :=
+  let t := Sha256.Ch r.e r.f r.g + Sha256.bigSigma1 r.e + wk + r.h
+  { a := t + Sha256.Maj r.a r.b r.c + Sha256.bigSigma0 r.a, b := r.a, c := r.b, d := r.c,
+    e := t + r.d, f := r.e, g := r.f, h := r.g }
+
+/-- `_mm_sha256rnds2_epu32(src1, src2, wk)`: two rounds.
+```
+A₀ ← SRC2[127:96]  B₀ ← SRC2[95:64]  C₀ ← SRC1[127:96]  D₀ ← SRC1[95:64]
+E₀ ← SRC2[63:32]   F₀ ← SRC2[31:0]   G₀ ← SRC1[63:32]   H₀ ← SRC1[31:0]
+WK₀ ← XMM0[31:0]   WK₁ ← XMM0[63:32]
+FOR i = 0 to 1
+  A_(i+1) ← Ch(E_i,F_i,G_i) + Σ₁(E_i) + WK_i + H_i + Maj(A_i,B_i,C_i) + Σ₀(A_i)
+  B_(i+1) ← A_i   C_(i+1) ← B_i   D_(i+1) ← C_i
+  E_(i+1) ← Ch(E_i,F_i,G_i) + Σ₁(E_i) + WK_i + H_i + D_i
+  F_(i+1) ← E_i   G_(i+1) ← F_i   H_(i+1) ← G_i
+DEST[127:96] ← A₂  DEST[95:64] ← B₂  DEST[63:32] ← E₂  DEST[31:0] ← F₂
+``` -/
+def sha256rnds2 (src1 src2 wk : V4) : V4 :=
+  let r0 : Sha256.Regs := ⟨src2.x3, src2.x2, src1.x3, src1.x2, src2.x1, src2.x0, src1.x1, src1.x0⟩
+  let r2 := sdmRound (sdmRound r0 wk.x0) wk.x1
+  ⟨r2.f, r2.e, r2.b, r2.a⟩
+
+/-- `_mm_sha256msg1_epu32(a, b)`: `(a₀+σ₀(a₁), a₁+σ₀(a₂), a₂+σ₀(a₃), a₃+σ₀(b₀))` -/
+def sha256msg1 (a b : V4) : V4 :=
+  ⟨a.x0 + Sha256.smallSigma0 a.x1, a.x1 + Sha256.smallSigma0 a.x2, a.x2 + Sha256.smallSigma0 a.x3,
+   a.x3 + Sha256.smallSigma0 b.x0⟩
+
+/-- `_mm_sha256msg2_epu32(a, b)`: `W16 = a₀+σ₁(b₂)`, `W17 = a₁+σ₁(b₃)`, `W18 = a₂+σ₁(W16)`, `W19 = a₃+σ₁(W17)` -/
+def sha256msg2 (a b : V4) : V4 :=
+  let w16 := a.x0 + Sha256.smallSigma1 b.x2
+  let w17 := a.x1 + Sha256.smallSigma1 b.x3
+  ⟨w16, w17, a.x2 + Sha256.smallSigma1 w16, a.x3 + Sha256.smallSigma1 w17⟩
+
+/-- `_mm_alignr_epi8(a, b, 4)`: bytes 4..19 of `a:b` -/
+def mm_alignr_epi8_4 (a b : V4) : V4 := ⟨b.x1, b.x2, b.x3, a.x0⟩
+/-- `_mm_unpackhi_epi64(a, b)` / `_mm_unpacklo_epi64(a, b)` -/
+def mm_unpackhi_epi64 (a b : V4) : V4 := ⟨a.x2, a.x3, b.x2, b.x3⟩
+def mm_unpacklo_epi64 (a b : V4) : V4 := ⟨a.x0, a.x1, b.x0, b.x1⟩
+-- `_mm_srli_si128(a, 8)` is `mm_srli_si128_8` above.
+
+/-- `_mm_shuffle_epi8(x, SHUF)` with the byte indices of `SHUF` listed from byte 0 up (all < 16,
+    no zeroing bit): `dst[i] = x[shuf[i]]`; `none` if an index is out of range or the register
+    does not have 16 bytes -/
+def mm_shuffle_epi8 (x : Bytes) (shuf : List Nat) : Option Bytes :=
+  if x.length ≠ 16 then none else shuf.mapM fun i => x[i]?
+
+/-- `be32dec_128(src)`: `_mm_set_epi8(12, 13, 14, 15, 8, 9, 10, 11, 4, 5, 6, 7, 0, 1, 2, 3)` lists byte 15
+    first, so from byte 0 up the selector is `3, 2, 1, 0, 7, 6, 5, 4, …` -/
+def be32dec_128 (src : Bytes) : Option V4 := do
+  let b ← mm_shuffle_epi8 src [3, 2, 1, 0, 7, 6, 5, 4, 11, 10, 9, 8, 15, 14, 13, 12]
+  lanesOfBytes b
+
+/-- the two state registers `S[0]`, `S[1]` -/
+structure S2 where
+  s0 : V4
+  s1 : V4
+
+/-- `RND4(S, W, K0, K1, K2, K3)` -/
+def rnd4 (s : S2) (w : V4) (k0 k1 k2 k3 : UInt32) : S2 :=
+  let m := mm_add_epi32 w ⟨k0, k1, k2, k3⟩          -- IMM4(K3, K2, K1, K0): K0 in lane 0
+  let s1 := sha256rnds2 s.s1 s.s0 m
+  let m := mm_srli_si128_8 m
+  let s0 := sha256rnds2 s.s0 s1 m
+  ⟨s0, s1⟩
+
+/-- `MSG4(W, i)` of `sha256_shani.c` with `X0 = W[i % 4]`, …, `X3 = W[(i + 3) % 4]` -/
+def msg4ni (X0 X1 X2 X3 : V4) : V4 :=
+  let t := sha256msg1 X0 X1
+  let t := mm_add_epi32 t (mm_alignr_epi8_4 X3 X2)
+  sha256msg2 t X3
+
+/-- four consecutive `RNDMSG(S, W, i, …)` lines with `i ≡ 0, 1, 2, 3 (mod 4)`, `i < 12`: each runs
+    four rounds on `W[i % 4]` and then replaces it by the schedule words sixteen further on -/
+def rndmsgQuad (s : S2) (y : Y4) : List UInt32 → Option (S2 × Y4)
+  | [k0, k1, k2, k3, k4, k5, k6, k7, k8, k9, k10, k11, k12, k13, k14, k15] =>
+    let s := rnd4 s y.y0 k0 k1 k2 k3
+    let y0 := msg4ni y.y0 y.y1 y.y2 y.y3
+    let s := rnd4 s y.y1 k4 k5 k6 k7
+    let y1 := msg4ni y.y1 y.y2 y.y3 y0
+    let s := rnd4 s y.y2 k8 k9 k10 k11
+    let y2 := msg4ni y.y2 y.y3 y0 y1
+    let s := rnd4 s y.y3 k12 k13 k14 k15
+    let y3 := msg4ni y.y3 y0 y1 y2
+    some (s, ⟨y0, y1, y2, y3⟩)
+  | _ => none
+
+/-- the last four `RNDMSG` lines (`i = 12 … 15`): rounds only -/
+def rndQuad (s : S2) (y : Y4) : List UInt32 → Option S2
+  | [k0, k1, k2, k3, k4, k5, k6, k7, k8, k9, k10, k11, k12, k13, k14, k15] =>
+    let s := rnd4 s y.y0 k0 k1 k2 k3
+    let s := rnd4 s y.y1 k4 k5 k6 k7
+    let s := rnd4 s y.y2 k8 k9 k10 k11
+    some (rnd4 s y.y3 k12 k13 k14 k15)
+  | _ => none
+
+/-- the four `be32dec_128` loads; `none` unless the block has 64 bytes -/
+def loadBlockNi (block : Bytes) : Option Y4 :=
+  if block.length ≠ 64 then none else do
+    let w0 ← be32dec_128 (block.take 16)
+    let w1 ← be32dec_128 ((block.drop 16).take 16)
+    let w2 ← be32dec_128 ((block.drop 32).take 16)
+    let w3 ← be32dec_128 ((block.drop 48).take 16)
+    pure ⟨w0, w1, w2, w3⟩
+
+/-- load the state and shuffle it into `S[0] = ABEF`, `S[1] = CDGH` -/
+def stateIn (state : Sha256.Regs) : S2 :=
+  let s3210 : V4 := ⟨state.a, state.b, state.c, state.d⟩
+  let s7654 : V4 := ⟨state.e, state.f, state.g, state.h⟩
+  let s0123 := mm_shuffle_epi32 s3210 0 1 2 3            -- 0x1B = _MM_SHUFFLE(0, 1, 2, 3)
+  let s4567 := mm_shuffle_epi32 s7654 0 1 2 3
+  ⟨mm_unpackhi_epi64 s4567 s0123, mm_unpacklo_epi64 s4567 s0123⟩
+
+/-- the sixteen `RNDMSG` lines -/
+def shaniRounds (s : S2) (y : Y4) (k : List UInt32) : Option S2 :=
+  (rndmsgQuad s y (k.take 16)).bind fun p1 =>
+  (rndmsgQuad p1.1 p1.2 ((k.drop 16).take 16)).bind fun p2 =>
+  (rndmsgQuad p2.1 p2.2 ((k.drop 32).take 16)).bind fun p3 =>
+  rndQuad p3.1 p3.2 (k.drop 48)
+
+/-- add the working variables to the (shuffled) state, shuffle back and store -/
+def stateOut (s0 s : S2) : Sha256.Regs :=
+  let s0145 := mm_add_epi32 s0.s0 s.s0
+  let s2367 := mm_add_epi32 s0.s1 s.s1
+  let s0123 := mm_unpackhi_epi64 s2367 s0145
+  let s4567 := mm_unpacklo_epi64 s2367 s0145
+  let s3210 := mm_shuffle_epi32 s0123 0 1 2 3
+  let s7654 := mm_shuffle_epi32 s4567 0 1 2 3
+  ⟨s3210.x0, s3210.x1, s3210.x2, s3210.x3, s7654.x0, s7654.x1, s7654.x2, s7654.x3⟩
+
+/-- `SHA256_Transform_shani(state, block)`; the round constants are those of the current source -/
+def transformShani (state : Sha256.Regs) (block : Bytes) : Option Sha256.Regs := do
+  let y ← loadBlockNi block
+  let s ← shaniRounds (stateIn state) y Gen.CpuPaths.shaniK
+  pure (stateOut (stateIn state) s)
+
+/-! ## 6. `SHA256_Transform` with the dispatch -/
+
+/-- the accelerated variants `SHA256_Transform` can select (`HW_X86_SSE2`, `HW_X86_SHANI`) -/
+inductive ShaPath
+  | sse2
+  | shani
+deriving DecidableEq, Repr
+
+def transformAccel : ShaPath → Sha256.Regs → Bytes → Option Sha256.Regs
+  | .sse2 => transformSse2
+  | .shani => transformShani
+
+/-- consecutive `SHA256_Transform` calls, each block through the variant given with it -/
+def absorbAccel : Sha256.Regs → List (ShaPath × Bytes) → Option Sha256.Regs
+  | s, [] => some s
+  | s, pb :: rest =>
+    match transformAccel pb.1 s pb.2 with
+    | some s' => absorbAccel s' rest
     | none => none
 
 end Percival.Model.CpuPaths
